@@ -255,6 +255,28 @@ def gen_amr(rng, ngrids, nref, nloc, maxdepth=8):
 
 # ---- Cartesian grid
 
+def gen_cart_exact(rng, n):
+    """optical depth reached EXACTLY on a cell wall / box face (dyadic geometry, unit opacity):
+    the `optical_depth < 0.` vs `== 0.` branch of interact"""
+    ops = []
+    for _ in range(n):
+        k = rng.choice([1, 2, 4, 8])
+        per = [rng.randint(0, 1) for _ in range(3)]
+        ops.append("cart medium 1 %s | %s" % (fb(1.0), fb(1.0)))
+        ops.append("cart new %s %d %d %d %d %d %d" % (" ".join(fb(v) for v in [0.0, 0.0, 0.0, 1.0, 1.0, 1.0]), k, k, k, per[0], per[1], per[2]))
+        cs = 1.0 / k
+        for _ in range(6):
+            ax = rng.randrange(3)
+            sgn = rng.choice([1.0, -1.0])
+            d = [0.0, 0.0, 0.0]
+            d[ax] = sgn
+            pt = [(rng.randrange(k) + rng.choice([0.0, 0.5, 0.25])) * cs for _ in range(3)]
+            m = rng.randint(1, 2 * k)
+            tau = m * cs * rng.choice([1.0, 0.5, 0.25])       # lands on a wall, a box face, or mid cell
+            ops.append("cart ray %s" % " ".join(fb(v) for v in pt + d + [tau, 1.0, 0.0]))
+    return ops
+
+
 CART_N = [(1, 1, 1), (2, 3, 5), (3, 5, 7), (8, 8, 8), (16, 1, 1), (6, 9, 10), (7, 7, 7), (12, 5, 3), (1, 4, 9), (5, 5, 1)]
 
 
@@ -560,6 +582,18 @@ def harness_kw():
                             os.path.join(vlib.REPO, "src", "DensityGrid.cpp")]}
 
 
+OP_STREAM = {"amr": "amr", "cart": "cartesian", "amrd": "amrdensitygrid", "pl": "buckets", "oct": "octree",
+             "morton": "morton", "inc": "shells", "shell": "shells", "maxrange": "maxrange", "range": "range"}
+
+
+def stream_of(grp, name):
+    """oracle keys are named after the kind of operation (so that corpus lines get the same key
+    as generated ones)"""
+    if grp:
+        return OP_STREAM.get(grp[-1].split()[0], name)
+    return name
+
+
 def tally(ctx, ops, model, nontrivial=lambda op, ml: True):
     for op, ml in zip(ops, model):
         ctx.count()
@@ -625,7 +659,7 @@ def run(ctx):
         ("buckets", gen_pl(rng, ctx.budget(60, 1500), ctx.budget(25, 60))),
         ("octree", gen_oct(rng, ctx.budget(40, 800), ctx.budget(20, 40))),
         ("amrdensitygrid", gen_amrd(rng, ctx.budget(25, 400), ctx.budget(12, 30), ctx.budget(30, 80))),
-        ("cartesian", gen_cart(rng, ctx.budget(40, 800), ctx.budget(25, 60), ctx.budget(40, 120), ctx.thorough)),
+        ("cartesian", gen_cart_exact(rng, ctx.budget(40, 400)) + gen_cart(rng, ctx.budget(40, 800), ctx.budget(25, 60), ctx.budget(40, 120), ctx.thorough)),
     ]
     if corpus:
         streams.insert(0, ("corpus", corpus))
@@ -638,7 +672,7 @@ def run(ctx):
             continue
         n, impl, model, orc = ctx.correspond(name, h, d, ops, cmp=cmp_num,
                                              group_start=GROUP.get(name),
-                                             oracle_key=lambda what, grp, name=name: "%s:%s" % (name, what.split()[0]))
+                                             oracle_key=lambda what, grp, name=name: "%s:%s" % (stream_of(grp, name), what.split()[0]))
         tally(ctx, ops, model)
         if impl:
             ctx.sample({"stream": name, "op": ops[0], "impl": impl[0]})
